@@ -13,6 +13,9 @@ FINDINGS = {
     "C09:nv-epr-context-preallocates-pair-ids": dict(
         cfg=dict(max_q=3, nv_hw=True, transp=False),
         ops=[["ctx", 2, False], ["flush"]]),
+    "C09:sequential-keep-handles-stay-active": dict(
+        cfg=dict(max_q=3, nv_hw=False, transp=False),
+        ops=[["seq", 2, False], ["flush"]]),
 }
 
 
@@ -125,7 +128,8 @@ def run(ctx):
         "modelled, not verified: instructions are abstracted to the events that touch the unit module (qalloc, qfree, "
         "pair delivery, gate/init/meas/mov operands); registers, arrays and branches are the object of C05/C14",
         "EPR operations covered: create_keep/recv_keep without post_routine and not sequential, create_context/"
-        "recv_context whose block applies H and measures the pair.  Not covered: sequential=True, post_routine, "
+        "recv_context whose block applies H and measures the pair.  sequential=True with a measuring post_routine only "
+        "as the witness of a recorded finding.  Not covered: other post routines, "
         "measure-directly and remote-state-preparation requests, min_fidelity_all_at_end retry loops, operations "
         "inside an EPR block other than on the block's qubit, handles used after they were measured or freed",
         "an SDK refusal (AssertionError in _create_ent_qubits: NV, keep of n>=2 pairs while an ID below n is in use) "
